@@ -19,6 +19,12 @@ RULE = (
     "distinct = blake2b(payload, relation); non-trivial = the message has at least one decoded data field "
     "besides the message number"
 )
+RULE += (
+    ' Also: the payload is handed over as bytes / bytearray / bytes subclass / read-only memoryview /'
+    ' writable view into a larger buffer, through the constructor or the static frame parser (after'
+    ' CRC-colliding twins of the same frame were parsed); cell masks wider than 64 bits are checked only'
+    " for 'accepted => decoded as announced'; a second, pinned oracle (vf.stdlayout) for 134 identities."
+)
 ASSUMPTIONS = [
     "definition tables are read as data (their conformance to the standards is C10's subject)",
     "STR code units are generated in 1..255 (zero code units are not claimed); harmonic orders M <= N",
